@@ -115,6 +115,19 @@ chk("C07", "model_checking",
     "TLA+ spec (RtrLayout/RtrWire) model-checked by TLC incl. liveness; exhaustive spec->impl replay; impl->spec trace validation",
     "DESIGN.md §3 C07")
 
+chk("C09", "model_checking",
+    "XmlLimit models the XML reader's byte budget (reset-and-limit at every element, fill refused once the trip is over the limit, "
+    "consume) over documents with oversized and endless elements; TLC checks that every byte is consumed under a freshly reset non-zero "
+    "limit, trip <= limit + one buffer, bounded read-ahead, and that oversized/endless elements are refused (liveness). RrdpDoc "
+    "transcribes sort_and_verify_deltas and states the origin rule; TLC checks them for all serial lists over boundary values x limits and "
+    "enumerates all documents with <= 2 elements. Every document is written and parsed back by the library and the predicates compared; "
+    "BufReadCounter events recorded through the cfg(rpki_rs_verif) hook from valid, byte-mutated, captured and 29 endless generated "
+    "inputs are validated by Trace_XmlLimit (budget invariants after every event, bytes pulled <= offset + budget + one buffer).",
+    "Hook commit d0960aa in /repo (add-only, cfg-guarded); inner BufReader of 8192 bytes; malformed-document grammar explored by byte "
+    "mutation, not from a token-level model.",
+    "TLA+ specs (XmlLimit, RrdpDoc) model-checked by TLC incl. liveness; spec->impl replay; impl->spec trace validation of hook events",
+    "DESIGN.md §3 C09")
+
 ALL = ["C%02d" % i for i in range(1, 18)]
 
 
